@@ -1,5 +1,5 @@
 """Correspondence for the source-to-Lean translator (gen/py2lean.py) and its run-time library (lean/Asn1/PyLite.lean):
-the *translation* of a function (driver ops KTAG, KLEN, KTOBYTES, KOIDENC, KOIDDEC, KTIME, KREAL, KREALDEC, KDECLEN, KDECTAG, KOCTCHUNK, KSETOF, KWREAD, KWMARK, KREADTURN, KEOSTURN, PYBIO, KCRANGE, KCSIZE, KCSINGLE, KCALPHA, KCERBOOL, KWRAP, KINTDEC; PYFROMBYTES) and the function itself in /repo are
+the *translation* of a function (driver ops KTAG, KLEN, KTOBYTES, KOIDENC, KOIDDEC, KTIME, KREAL, KREALDEC, KDECLEN, KDECTAG, KOCTCHUNK, KSETOF, KCERBOOLENC, KWREAD, KWMARK, KREADTURN, KEOSTURN, PYBIO, KCRANGE, KCSIZE, KCSINGLE, KCALPHA, KCERBOOL, KWRAP, KINTDEC; PYFROMBYTES) and the function itself in /repo are
 run on the same arguments; the Python builtins PyLite transcribes (PYOP) are compared with CPython.
 
 A disagreement means the translator or PyLite misrepresents the code (machinery fault to repair) - it is reported as a
@@ -647,6 +647,16 @@ def check(rep, drv, seed, n=400, which=('encodeTag', 'encodeLength', 'toBytes', 
                 return ['no-value']
             impl = _py(real)
             cmp_('cerBool', 'KCERBOOL %d %s' % (len(body), ' '.join(str(b) for b in body)), impl)
+        # and the encoder side: cer.encoder.BooleanEncoder.encodeValue (00 / FF)
+        from pyasn1.codec.cer import encoder as cenc2_
+        be = cenc2_.BooleanEncoder()
+        for v_ in (0, 1, 2, -1, 255, 256, rnd_int(), rnd_int()):
+            r_ = be.encodeValue(univ.Boolean(v_ != 0) if v_ in (0, 1) else univ.Integer(v_), None, None)
+            nonlocal_done[0] += 1
+            rep.corr_checked += 1
+            ans = drv.ask('KCERBOOLENC %d' % v_).replace('true', '1').replace('false', '0').replace('|', '')
+            if _ints(ans) != ('ok', list(r_[0]) + [int(r_[1]), int(r_[2])]):
+                rep.disagree('KERNEL:cerBoolEnc', 'KCERBOOLENC %d' % v_, ans, repr(r_))
     if 'wrapTags' in which:
         class Stub(benc.AbstractItemEncoder):
             result = None
